@@ -652,6 +652,15 @@ C13_TRACT_TEXTS = {"parse_qq": "NE/4", "clean_qq": "NE", "suppress_lot_divs": "N
 _TRACT_LEVEL = {"clean_qq", "suppress_lot_divs", "qq_depth", "qq_depth_min", "qq_depth_max", "break_halves"}
 
 
+_C13_LAST_HASH = [0]
+
+
+def c13_ref_hash(scn):
+    """Hash of the complete projected result of one (reference) scenario - run in a fresh interpreter by the driver."""
+    _c13_run(scn, {})
+    return _C13_LAST_HASH[0]
+
+
 def _c13_concrete(s, v):
     if s == "qq_depth_max":
         return int(v) + 1          # 2, 3, 4 (never below the default minimum)
@@ -728,8 +737,10 @@ def _c13_run(scn, table):
                 if scn.get("again"):
                     t.parse()
             proj = (t.trs, t.pp_desc, tuple(t.lots), tuple(t.qqs), t.parse_complete, tuple(sorted(map(repr, t.w_flags))))
+        _C13_LAST_HASH[0] = _h(proj)
         return table.setdefault(proj, len(table) + 1), "none", repr(proj)[:300]
     except Exception as e:  # noqa
+        _C13_LAST_HASH[0] = 0
         return 0, type(e).__name__, str(e)[:200]
     finally:
         MasterConfig.default_ns, MasterConfig.default_ew = old
@@ -740,12 +751,13 @@ def c13_scenario(case):
     table = {}
     fo, eo, ro = _c13_run(a["scn"], table)
     fr, er, rr = _c13_run(a["ref"], table)
+    h_ref = _C13_LAST_HASH[0]
     default = dict(a["ref"], v=None, ch="none")
     default["ch"] = "none"
     fd, ed, rd = _c13_run({"target": a["scn"]["target"], "s": a["scn"]["s"], "v": "unset", "ch": "none",
                            "ch2": "none", "s2": a["scn"]["s"], "v2": "unset"}, table)
     return {"fp_obs": fo, "exc_obs": eo, "fp_ref": fr, "exc_ref": er, "fp_default": fd,
-            "raw_obs": ro, "raw_ref": rr}
+            "raw_obs": ro, "raw_ref": rr, "h_ref": h_ref}
 
 
 # ---------------------------------------------------------------------------
@@ -877,12 +889,14 @@ C15_OTHER = {"o1": "T154N-R97W Sec 14: NE/4, T155N-R98W Sec 1: Lots 1 - 3", "o2"
 
 
 _C15_HELD = [None]
+_C15_CFG = [None]
 C15_HELD_TEXT = "T154-R97W Sec 14: NE/4, Lots 1 - 3"
 
 
 def c15_reset():
     import pytrs
     _C15_HELD[0] = None
+    _C15_CFG[0] = pytrs.Config("clean_qq")       # the caller's settings object, reused for the whole history
     pytrs.MasterConfig.default_ns = "n"
     pytrs.MasterConfig.default_ew = "w"
     pytrs.TRS._USE_CACHE = True
@@ -920,6 +934,10 @@ def c15_probe(p):
     if p == "tract_bareqq":
         t = pytrs.Tract("NE NW, SW of the SE, Lot 1", "154n97w14", parse_qq=True)
         return (snap_tract(t), t.preprocess())
+    if p == "cfg_parse":
+        d = pytrs.PLSSDesc("T154-R97 Sec 14: NE, Lots 1 - 3", config=_C15_CFG[0], parse_qq=True)
+        t = pytrs.Tract.from_twprgesec("N/2", 154, 97, 14, config=_C15_CFG[0])
+        return (snap_plss(d), snap_tract(t), str(_C15_CFG[0]))
     if p == "held_parse":
         if _C15_HELD[0] is None:
             _C15_HELD[0] = pytrs.PLSSDesc(C15_HELD_TEXT, wait_to_parse=True, parse_qq=True)
@@ -1001,6 +1019,9 @@ def c15_do(op):
             _mutate_container(d.tracts[0].qqs)
             g = d.tracts.group_by("twprge")
             _mutate_container(g)
+    elif name == "use_cfg":
+        pytrs.Tract.from_twprgesec("NE/4", 154, 97, 14, default_ns=a, default_ew=b, config=_C15_CFG[0], parse_qq=True)
+        pytrs.TRS.from_twprgesec(154, 97, 14, default_ns=a, default_ew=b)
     elif name == "hold":
         _C15_HELD[0] = pytrs.PLSSDesc(C15_HELD_TEXT, wait_to_parse=True, parse_qq=True)
     elif name == "probe":
@@ -1033,7 +1054,7 @@ def c15(case):
 # ---------------------------------------------------------------------------
 # C18: containers
 
-C18_TRS = {1: "154n97w14", 2: "154n97w15", 3: "155n97w14", 4: "XXXz97w14", 5: "154n97wXX", 6: "154n97w__",
+C18_TRS = {9: "0n0w00", 1: "154n97w14", 2: "154n97w15", 3: "155n97w14", 4: "XXXz97w14", 5: "154n97wXX", 6: "154n97w__",
            7: "___z97wXX", 8: "XXXzXXXzXX"}
 C18_DESC = {(1, 1): "NE/4", (2, 1): "E/2NE/4, W/2NE/4", (1, 0): "NE/4", (3, 2): "SW/4", (1, 2): "SW/4 ",
             (4, 3): "That part lying north of the river", (5, 3): "A strip of land along the county road"}
@@ -1112,7 +1133,7 @@ def c18_group(case):
             dct = lst.group_by_nested(arg)
         else:
             dct = lst.group_by(arg)
-        val = {"154n": "x", "155n": "y", "XXXz": "z", "___z": "w", "14": "p", "15": "q", "XX": "r", "__": "s"}
+        val = {"154n": "x", "155n": "y", "XXXz": "z", "___z": "w", "0n": "v", "14": "p", "15": "q", "XX": "r", "__": "s", "00": "t"}
         groups = []
 
         def walk(d, path):
@@ -1390,15 +1411,27 @@ def c19_records(case):
     ev = {"tid": case["id"], "kind": "records", "form": form, "n_tracts": len(d.tracts), "n_records": -1,
           "order_ok": False, "keys_ok": False, "values_ok": False, "unknown_ok": False, "exc": "none"}
     try:
-        arg = attrs if a.get("as_list") else None
-        if form == "to_dict":
-            recs = target.tracts_to_dict(attrs) if arg else target.tracts_to_dict(*attrs)
-        elif form == "to_list":
-            recs = target.tracts_to_list(attrs) if arg else target.tracts_to_list(*attrs)
-        elif form == "iter_to_dict":
-            recs = list(target.iter_to_dict(attrs) if arg else target.iter_to_dict(*attrs))
+        # the names may be given one by one, as one list, or mixed (a group of names followed by single names);
+        # the columns are in reading order of the names in every case
+        shape = a.get("shape") or ("list" if a.get("as_list") else "star")
+        if shape == "list":
+            call = (list(attrs),)
+        elif shape == "group_first" and len(attrs) > 2:
+            call = (list(attrs[:2]),) + tuple(attrs[2:])
+        elif shape == "group_middle" and len(attrs) > 3:
+            call = (attrs[0], (attrs[1], attrs[2])) + tuple(attrs[3:])
+        elif shape == "nested_list" and len(attrs) > 2:
+            call = ([list(attrs[:2])] + list(attrs[2:]),)
         else:
-            recs = list(target.iter_to_list(attrs) if arg else target.iter_to_list(*attrs))
+            call = tuple(attrs)
+        if form == "to_dict":
+            recs = target.tracts_to_dict(*call)
+        elif form == "to_list":
+            recs = target.tracts_to_list(*call)
+        elif form == "iter_to_dict":
+            recs = list(target.iter_to_dict(*call))
+        else:
+            recs = list(target.iter_to_list(*call))
         ev["n_records"] = len(recs)
         order = keys = values = unknown = True
         for t, r in zip(d.tracts, recs):
